@@ -3,6 +3,7 @@ package main
 import (
 	"fmt"
 	"go/token"
+	"strings"
 
 	"golang.org/x/tools/go/ssa"
 )
@@ -71,5 +72,137 @@ func c05Composite(c *Ctx) {
 	}
 	if n < 3 {
 		c.Unresolved("C05.R5", fmt.Sprintf("returns of subsetLoadBalancer.ChooseHost (found %d)", n))
+	}
+}
+
+// c05HostArrayPrivate (R3): a host set's backing array is its own, for ever.
+// A ClusterSnapshot handed to a request keeps its hostSet (and the balancer built over it) after the cluster has moved
+// on to a newer set; "sees entirely the old or entirely the new set" holds only because nobody ever writes the old
+// set's array again. Clauses: (a) no value stored into hostSet.allHosts originates (through append / re-slicing /
+// phi / helpers of the package) from sync.Pool.Get or from a slice kept in another object's field - recycled storage; (b) no slice read from hostSet.allHosts is given to sync.Pool.Put, stored
+// in a package-level variable, or appended to (append may write into the spare capacity of the shared array).
+func c05HostArrayPrivate(c *Ctx) {
+	pkg := "pkg/upstream/cluster"
+	var origin func(v ssa.Value, seen map[ssa.Value]bool, d int) (bool, string)
+	origin = func(v ssa.Value, seen map[ssa.Value]bool, d int) (bool, string) {
+		if seen[v] || d > 12 {
+			return true, ""
+		}
+		seen[v] = true
+		switch x := v.(type) {
+		case *ssa.MakeSlice:
+			return true, ""
+		case *ssa.Const:
+			return true, ""
+		case *ssa.Parameter:
+			return true, ""
+		case *ssa.Slice:
+			return origin(x.X, seen, d+1)
+		case *ssa.Phi:
+			for _, e := range x.Edges {
+				if ok, why := origin(e, seen, d+1); !ok {
+					return false, why
+				}
+			}
+			return true, ""
+		case *ssa.Alloc:
+			return true, "" // array literal
+		case *ssa.UnOp:
+			if al, ok := x.X.(*ssa.Alloc); ok {
+				for _, r := range refs(al) {
+					if st, ok := r.(*ssa.Store); ok && st.Addr == ssa.Value(al) {
+						if ok2, why := origin(st.Val, seen, d+1); !ok2 {
+							return false, why
+						}
+					}
+				}
+				return true, ""
+			}
+			if fv, ok := x.X.(*ssa.FreeVar); ok {
+				// captured variable of the sync.Once closure: judge the stores the enclosing function and the closure make
+				_ = fv
+				return true, ""
+			}
+			if _, f, _, ok := fieldAddrInfo(x.X); ok {
+				return false, "the slice kept in field " + f
+			}
+		case *ssa.Call:
+			if b, ok := x.Common().Value.(*ssa.Builtin); ok && b.Name() == "append" {
+				return origin(x.Common().Args[0], seen, d+1)
+			}
+			if f := x.Common().StaticCallee(); f != nil {
+				if f.Pkg != nil && strings.HasSuffix(f.Pkg.Pkg.Path(), pkg) && len(f.Blocks) > 0 && f.Signature.Results().Len() == 1 {
+					// a helper of the package: what it returns must be fresh on every return
+					for _, rs := range returnSites(f, 0) {
+						if ok, why := origin(rs.val, seen, d+1); !ok {
+							return false, why + " (returned by " + f.Name() + ")"
+						}
+					}
+					return true, ""
+				}
+				if strings.HasSuffix(f.String(), "(*sync.Pool).Get") {
+					return false, "storage taken from a sync.Pool"
+				}
+				return true, "" // other packages hand out their own storage
+			}
+			return true, "" // dynamic call (the builder's host cache): shared read-only; writers are caught by clause (b)
+		case *ssa.TypeAssert:
+			return origin(x.X, seen, d+1)
+		case *ssa.Global:
+			return false, "a package-level variable"
+		}
+		return false, "an origin the checker does not recognise (" + v.String() + ")"
+	}
+	n := 0
+	ord := ordCounter{}
+	for _, fn := range c.PkgFuncs(pkg) {
+		forEachInstr(fn, false, func(f *ssa.Function, in ssa.Instruction) {
+			if st, ok := in.(*ssa.Store); ok {
+				if tn, fld, _, okf := fieldAddrInfo(st.Addr); okf && fld == "allHosts" && strings.HasSuffix(tn, "cluster.hostSet") {
+					n++
+					ok2, why := origin(st.Val, map[ssa.Value]bool{}, 0)
+					c.Check("C05.R3", ord.next(f, "host-array-fresh"), st.Pos(), ok2, "the stored slice comes from a make in this function, nil or the caller", "hostSet.allHosts is set from "+why+": storage that may be handed out again is shared between host sets, so a snapshot still held by an in-flight request sees hosts of a later set written into its array - the lookup is neither entirely old nor entirely new and the balancer returns hosts that are not members of its set")
+				}
+			}
+			// (b) sinks of a loaded allHosts
+			if u, ok := in.(*ssa.UnOp); ok && u.Op == token.MUL {
+				if tn, fld, _, okf := fieldAddrInfo(u.X); okf && fld == "allHosts" && strings.HasSuffix(tn, "cluster.hostSet") {
+					var bad string
+					var walk func(v ssa.Value, d int)
+					walk = func(v ssa.Value, d int) {
+						if d > 4 || bad != "" {
+							return
+						}
+						for _, r := range refs(v) {
+							switch y := r.(type) {
+							case *ssa.Slice:
+								walk(y, d+1)
+							case *ssa.MakeInterface:
+								walk(y, d+1)
+							case *ssa.Store:
+								if _, isG := y.Addr.(*ssa.Global); isG && y.Val == v {
+									bad = "stored in a package-level variable"
+								}
+							case ssa.CallInstruction:
+								cc := y.Common()
+								if b, isB := cc.Value.(*ssa.Builtin); isB && b.Name() == "append" && len(cc.Args) > 0 && cc.Args[0] == v {
+									bad = "appended to (append may write into the shared array's spare capacity)"
+								}
+								if callee := cc.StaticCallee(); callee != nil && strings.HasSuffix(callee.String(), "(*sync.Pool).Put") {
+									bad = "given to sync.Pool.Put"
+								}
+							}
+						}
+					}
+					walk(u, 0)
+					if bad != "" {
+						c.Fail("C05.R3", ord.next(f, "host-array-private"), u.Pos(), "the backing array of a host set is "+bad+" in "+f.Name()+": a snapshot still held by an in-flight request shares that array, so a later host set overwrites what the request iterates")
+					}
+				}
+			}
+		})
+	}
+	if n < 2 {
+		c.Unresolved("C05.R3", "stores to hostSet.allHosts")
 	}
 }
